@@ -877,7 +877,59 @@ def xlsx_trim_contracts(reg):
                               ensures=[("last-row-with-a-non-empty-cell-zero-when-none", post_last)], raises=[],
                               loops={0: LoopSpec(inv=inv_tail, label="rows-from-the-end")} if down else {},
                               note="symbolic sheet: every number of rows, every row length; every row after the result is empty, the result's row is not"))
+    # ---- _find_last_data_column: 1-based index of the last column that holds a non-empty cell in SOME row, 0 when there is none
+    fq = "_find_last_data_column"
+    fnode = m.functions.get(fq)
+    lv = loop_vars(XLSX, fq)
+    if fnode is not None and len(fnode.args.args) == 1 and len(lv) == 2 and lv[0]["target"]:
+        pname, rowv = fnode.args.args[0].arg, lv[0]["target"]
+        fors = sorted([n for n in ast.walk(fnode) if isinstance(n, (ast.For, ast.While))], key=lambda n: (n.lineno, n.col_offset))
+        accs = sorted({t.id for n in ast.walk(fors[1]) if isinstance(n, ast.Assign) for t in n.targets if isinstance(t, ast.Name)})
+        if len(accs) == 1 and _down_range(fors[1]):
+            acc = accs[0]
+
+            def widest(t, m_, n):
+                """m_ is the last data column of the first n rows of t"""
+                k, j, k2 = z3.Int("k!col"), z3.Int("j!col"), z3.Int("k!wit")
+                ne = lambda kk, jj: nonempty_spec(t.elem(kk).elem(jj)) if isinstance(t.elem(kk), VSeq) else z3.BoolVal(False)
+                ln = lambda kk: _rowlen(t.elem(kk))
+                return z3.And(m_ >= 0,
+                              z3.ForAll([k, j], z3.Implies(z3.And(k >= 0, k < n, j >= m_, j < ln(k)), z3.Not(ne(k, j)))),
+                              z3.Implies(m_ > 0, z3.Exists([k2], z3.And(k2 >= 0, k2 < n, m_ <= ln(k2), ne(k2, m_ - 1)))))
+
+            def post_col(c):
+                t, r = c.ex.as_seq(c.entry, c.args[pname]), c.result
+                if t is None or not isinstance(r, VInt):
+                    c.note = "result is not an int"
+                    return z3.BoolVal(False)
+                return widest(t, ops.int_term(r), t.length)
+
+            def inv_outer(lc):
+                t, a = lc.ex.as_seq(lc.entry, lc.old(pname)), lc[acc]
+                return widest(t, ops.int_term(a), lc.i) if t is not None and isinstance(a, VInt) else z3.BoolVal(False)
+
+            def inv_inner(lc):
+                row, a, a0 = lc[rowv], lc[acc], lc.old(acc)
+                if not isinstance(row, VSeq) or not isinstance(a, VInt) or not isinstance(a0, VInt):
+                    return z3.BoolVal(False)
+                # the accumulator only grows, and when it grew it points just behind a non-empty cell of this row; no non-empty cell of
+                # this row at or after max(accumulator, columns not looked at yet)   (holds with and without the `break`)
+                j = z3.Int("j!tailc")
+                at, at0 = ops.int_term(a), ops.int_term(a0)
+                return z3.And(at >= at0,
+                              z3.Or(at == at0, z3.And(at >= 1, at <= row.length, nonempty_spec(row.elem(at - 1)))),
+                              z3.ForAll([j], z3.Implies(z3.And(j >= row.length - lc.i, j >= at, j < row.length), z3.Not(nonempty_spec(row.elem(j))))))
+            out.append(FnContract(target=f"{XLSX}::{fq}", params=[(pname, p_grid())],
+                                  ensures=[("last-column-with-a-non-empty-cell-in-some-row-zero-when-none", post_col)], raises=[],
+                                  loops={0: LoopSpec(inv=inv_outer, label="rows"), 1: LoopSpec(inv=inv_inner, label="cells-from-the-end")},
+                                  note="symbolic sheet, ragged rows: no row has a non-empty cell at or after the result, some row has one just before it"))
     return out
+
+
+def _down_range(f):
+    return isinstance(f, ast.For) and isinstance(f.iter, ast.Call) and isinstance(f.iter.func, ast.Name) and f.iter.func.id == "range" \
+        and len(f.iter.args) == 3 and isinstance(f.iter.args[2], ast.UnaryOp) and isinstance(f.iter.args[2].op, ast.USub) \
+        and isinstance(f.iter.args[2].operand, ast.Constant) and f.iter.args[2].operand.value == 1
 
 
 # ============================================================ (b) symbolic shape ==
@@ -1770,8 +1822,8 @@ ASSUMPTIONS = ["PY-COMP: a comprehension / generator expression with a total eff
 BOUNDED = ["walkers docx _extract_tables_from_context, odt _extract_tables, odp _extract_table, pptx _extract_table_from_graphic_frame, html _process_node(+_extract_table,_find_nodes), "
            "epub table state machine: every document of the grammar in contracts/C13_bounded.py (1..2 tables, <= 2 x 2 ragged, cells with 0..2 paragraphs, one nested table of depth 1, "
            "header-rows wrapper), paragraph texts symbolic",
-           "sheet builders xlsx _read_content_from_workbook(+_read_sheet_data,_find_last_data_column,_is_table_name_row; its callees _is_cell_non_empty, _is_meaningful_value, "
-           "_find_last_data_row are ALSO under a discharged symbolic contract since round 7), xls _read_content + XlsSheet.get_table, ods _extract_sheet: sheets of 1..3 rows x 1..2 columns "
+           "sheet builders xlsx _read_content_from_workbook(+_read_sheet_data,_is_table_name_row; its callees _is_cell_non_empty, _is_meaningful_value, "
+           "_find_last_data_row, _find_last_data_column are ALSO under a discharged symbolic contract since round 7), xls _read_content + XlsSheet.get_table, ods _extract_sheet: sheets of 1..3 rows x 1..2 columns "
            "over the cell kinds empty/text/int/float/bool/date, duplicate and empty first-row names; values symbolic (xls/xlsx first-row names and ods typed literals concrete)",
            "iterate_tables of every content class: 0..3 stored tables on 0..3 units",
            "rtf _RtfParser._extract_tables (+ _extract_table_cells, _save_table, _strip_rtf_simple, _remove_ignorable_groups): concrete RTF sources -- rectangular tables "
